@@ -22,7 +22,7 @@ Init == \E b \in 1..4 : cfg = Cfg0(b) /\ hist = <<>>      \* base 4: severe load
 (* how the same assessment is handed over: node ids 0..n-1 in load-step-major rows ("plain"), arbitrary unsorted node ids, rows ordered node by
    node, per-point G labelled differently from the node ids (only the ORDER of the G values is documented to count), a single-point Series
    whose index labels are not ascending (as left behind by splicing samples in with pd.concat) *)
-Layouts == {"plain", "scattered_ids", "node_major", "g_labels", "spliced_index"}
+Layouts == {"plain", "scattered_ids", "node_major", "g_labels", "spliced_index", "np_bool_flag"}     \* np_bool_flag: the per-point-maxima request given as numpy.bool_(True) instead of True
 Relation(a) == CASE a \in {"AddPoint", "DropPoint", "MoveTracked", "ToggleG", "Refine", "Relayout"} -> "same"
                  [] a \in {"ScaleUp", "Roughen", "TightenPA"} -> "notlarger"
 Step(a, arg, c2) == cfg' = c2 /\ hist' = Append(hist, <<a, arg, Relation(a)>>)
